@@ -273,7 +273,10 @@ void do_op(Ctx &c, const Op &o, int idx) {
     }
     case O_COMPACT_RANGE: {
       int lvl = o.a < 0 ? 0 : o.a > 5 ? 5 : o.a;
-      if (o.b == 1) {
+      if (o.a >= 6) { // push everything down, level by level, to the last level
+        for (int l = 0; l <= 5; l++) ldb_test_compact_range(c.db, l, NULL, NULL);
+        probe("push_down_to_last_level");
+      } else if (o.b == 1) {
         string a = o.key, b = o.key2;
         if (c.kc.cmp(b, a) < 0) std::swap(a, b);
         ldb_slice_t sa = S(a), sb = S(b);
@@ -490,7 +493,7 @@ Plan gen_model(uint64_t seed, const string &prop) {
         break;
       }
       case O_ITER_FREE: o.a = (int)r.below(NITER); break;
-      case O_COMPACT_RANGE: o.a = (int)r.below(5); o.b = r.chance(style ? 0.7 : 0.4); if (o.b) { o.key = key(); o.key2 = style ? near_key(o.key) : key(); } break;
+      case O_COMPACT_RANGE: o.a = r.chance(0.1) ? 9 : (int)r.below(6); o.b = r.chance(style ? 0.7 : 0.4); if (o.b) { o.key = key(); o.key2 = style ? near_key(o.key) : key(); } break;
       case O_COMPACT: o.b = r.chance(style ? 0.7 : 0.3); if (o.b) { o.key = key(); o.key2 = style ? near_key(o.key) : key(); } break;
       case O_APPROX: o.key = key(); o.key2 = key(); break;
       case O_PROPERTY: o.a = (int)r.below(5); break;
